@@ -268,7 +268,13 @@ func genModeString(t *rapid.T, m *model.Tracker, ch string) (string, []string) {
 		kind := rapid.IntRange(0, 9).Draw(t, "letter_kind")
 		switch {
 		case kind <= 3 || open:
-			modes.WriteString(rapid.SampledFrom([]string{"i", "m", "n", "p", "r", "s", "t", "z", "Z", "O", "X", "b"}).Draw(t, "flag"))
+			if !open && rapid.IntRange(0, 5).Draw(t, "list_mode") == 0 {
+				// ban / exception / invite mask: an argument of its own that is not tracked
+				modes.WriteString(rapid.SampledFrom([]string{"b", "e", "I"}).Draw(t, "list_letter"))
+				args = append(args, rapid.SampledFrom([]string{"*!*@bad.host", "a", "me"}).Draw(t, "mask"))
+				continue
+			}
+			modes.WriteString(rapid.SampledFrom([]string{"i", "m", "n", "p", "r", "s", "t", "z", "Z", "O", "X", "f"}).Draw(t, "flag"))
 		case kind <= 5:
 			// key
 			modes.WriteString("k")
